@@ -413,7 +413,8 @@ func (g *Gen) Next() string {
 			return "stakingend"
 		}
 	case "donate":
-		return fmt.Sprintf("donate %d %d %s", []int{AccModule, AccPool, AccFee}[g.R.Intn(3)], g.R.Intn(5), g.logUniform(9).String())
+		// (never the staking denom: the module burns its whole staking-denom balance every block by design)
+		return fmt.Sprintf("donate %d %d %s", []int{AccModule, AccPool, AccFee}[g.R.Intn(3)], g.R.Intn(4), g.logUniform(9).String())
 	case "unknown":
 		return fmt.Sprintf("delegate %d %d %d %s", g.user(), g.val(), DenomUnknown, "100")
 	}
